@@ -52,6 +52,7 @@ def unit(model, sizes):
     # ---- predict_win, predict_draw (single path)
     ow = W.run("predict_win")
     od = W.run("predict_draw")
+    seconds = {op: W.run_second_instance(op) for op in ("predict_win", "predict_draw", "predict_rank")}
     sw, sd = W.spec("win"), W.spec("draw")
     P = W.prover()
     fn = f"{model}.predict_win"
@@ -74,6 +75,21 @@ def unit(model, sizes):
         r = eq_rec(P, f"C12/{model}/predict_draw/closed-form@{shape}", term(od[1]), term(sd), fn, shape, rpd)
         r["time"] = round(time.time() - t0, 3)
         recs.append(r)
+    # ---- a second instance of the class (other beta), after the first one has predicted: still its own closed form
+    P = W.prover()
+    for op, which in (("predict_win", "win"), ("predict_draw", "draw"), ("predict_rank", "rank")):
+        out, beta2 = seconds[op]
+        fn = f"{model}.{op}"
+        rp2 = std_replay("c12_second", model, sizes, op=op)
+        ok = out[0] == "return"
+        if ok:
+            sp = W.spec(which, beta=beta2)
+            got = [term(out[1])] if op == "predict_draw" else ([term(x) for x in out[1]] if op == "predict_win" else [term(p) for (_r, p) in out[1]])
+            want = [term(sp)] if op == "predict_draw" else [term(x) for x in sp]
+            P.resolve_ites(got, extra_hyps=W.phi_monotone(P))
+            ok = len(got) == len(want) and all(P.prove_eq(g, w)[0] for g, w in zip(got, want))
+        recs.append(driver.rec(f"C12/{model}/{op}/closed-form-on-a-second-instance@{shape}", "discharged" if ok else "refuted", "field", 0,
+                               fn=fn, shape=shape, mode="R", replay=None if ok else rp2))
     return recs
 
 
